@@ -28,6 +28,25 @@ def rules : List (ARule S D) → S → Option S
       | some d => if r.enabled then (match r.concl d s with | none => none | some s' => rules rs s') else rules rs s
     else rules rs s
 
+/-- the sequential activation methods (General, First, Last, Threshold): rules are visited in order, each degree is
+    evaluated against the state so far, `sel degree count` decides whether the rule is selected (`count` = number of
+    rules selected before it; `none` = the comparison raises), a selected rule triggers (contributing only when enabled)
+    and counts -/
+def rulesSel (sel : D → Nat → Option Bool) : List (ARule S D) → Nat → S → Option S
+  | [], _, s => some s
+  | r :: rs, c, s =>
+    if r.loaded then
+      match r.deg s with
+      | none => none
+      | some d =>
+        match sel d c with
+        | none => none
+        | some true =>
+          if r.enabled then (match r.concl d s with | none => none | some s' => rulesSel sel rs (c + 1) s')
+          else rulesSel sel rs (c + 1) s
+        | some false => rulesSel sel rs c s
+    else rulesSel sel rs c s
+
 /-- enabled rule blocks in order -/
 def blocks : List (ABlock S D) → S → Option S
   | [], s => some s
